@@ -290,6 +290,24 @@ def r_Transpose(c):
 
 
 def r_Sum(c):
+    if "blocks" in c:
+        # documented: with an axis each block is reduced separately (result: the blocks of per-block sums), without an
+        # axis the whole block array is summed
+        sizes = [prod(b) for b in c["blocks"]]
+        n = sum(sizes)
+        cols = []
+        for j in range(n):
+            e = np.zeros(n)
+            e[j] = 1
+            parts, o = [], 0
+            for b, sz in zip(c["blocks"], sizes):
+                parts.append(e[o:o + sz].reshape(b))
+                o += sz
+            if c["axis"] is None:
+                cols.append(np.asarray([sum(float(p.sum()) for p in parts)]))
+            else:
+                cols.append(np.concatenate([np.asarray(p.sum(axis=c["axis"])).ravel() for p in parts]))
+        return np.stack(cols, 1)
     ax = c["axis"]
     ax = tuple(ax) if isinstance(ax, list) else ax
     return from_fn(lambda x: np.sum(x, axis=ax, keepdims=c["keepdims"]), c["shape"])
